@@ -308,13 +308,7 @@ fn from_str_with_options_impl<'de, T>(input: &'de str, options: Options) -> Resu
 where
     T: serde::de::Deserialize<'de>,
 {
-    // Normalize: ignore a single leading UTF-8 BOM if present.
-    let input = if let Some(rest) = input.strip_prefix('\u{FEFF}') {
-        rest
-    } else {
-        input
-    };
-
+    // A single leading UTF-8 BOM is ignored by `LiveEvents::from_str`.
     let with_snippet = options.with_snippet;
     let crop_radius = options.crop_radius;
 
@@ -414,13 +408,7 @@ fn from_str_with_options_and_path_recorder<T: DeserializeOwned>(
     input: &str,
     options: Options,
 ) -> Result<(T, crate::path_map::PathRecorder), Error> {
-    // Normalize: ignore a single leading UTF-8 BOM if present.
-    let input = if let Some(rest) = input.strip_prefix('\u{FEFF}') {
-        rest
-    } else {
-        input
-    };
-
+    // A single leading UTF-8 BOM is ignored by `LiveEvents::from_str`.
     let with_snippet = options.with_snippet;
     let crop_radius = options.crop_radius;
 
